@@ -184,6 +184,13 @@ func c04History(c *Case) {
 		c.Skip("rejected by Compile (the business of other properties)")
 		return
 	}
+	// navigator kind of this history: the harness default (MoveTo refuses other documents), or a navigator
+	// whose MoveTo adopts any position, also one in another document (the interface promises no document check)
+	mkNav := xdoc.NewNav
+	if c.Index%5 == 3 && c.Index%10 != 7 {
+		mkNav = xdoc.NewNavAnyMove
+		c.Count("navigator:moveto-adopts-any-document")
+	}
 	c.recordShape(queryShape(used))
 	var open []openIter
 	var hist []string
@@ -248,8 +255,8 @@ func c04History(c *Case) {
 		var nu int
 		if !useEval {
 			c.Count("mode:select")
-			iu := used.Select(xdoc.NewNav(ctx, &xdoc.Rec{Limit: OpLimit}))
-			ifr := fresh.Select(xdoc.NewNav(ctx, &xdoc.Rec{Limit: OpLimit}))
+			iu := used.Select(mkNav(ctx, &xdoc.Rec{Limit: OpLimit}))
+			ifr := fresh.Select(mkNav(ctx, &xdoc.Rec{Limit: OpLimit}))
 			var doneU bool
 			du, nu, doneU = c.pull(iu, d, k, extra)
 			df, _, _ = c.pull(ifr, d, k, extra)
@@ -259,8 +266,8 @@ func c04History(c *Case) {
 		} else {
 			c.Count("mode:evaluate")
 			var iu, ifr *xpath.NodeIterator
-			du, iu = c.evalDigest(used, ctx)
-			df, ifr = c.evalDigest(fresh, ctx)
+			du, iu = c.evalDigest(used, ctx, mkNav)
+			df, ifr = c.evalDigest(fresh, ctx, mkNav)
 			if iu != nil && ifr != nil {
 				var doneU bool
 				var su, sf string
@@ -299,7 +306,7 @@ func indexOf(docs []*xdoc.Doc, d *xdoc.Doc) int {
 }
 
 // evalDigest calls Evaluate and digests a scalar result (value and dynamic type) or returns the iterator.
-func (c *Case) evalDigest(e *xpath.Expr, ctx *xdoc.Node) (s string, it *xpath.NodeIterator) {
+func (c *Case) evalDigest(e *xpath.Expr, ctx *xdoc.Node, mkNav func(*xdoc.Node, *xdoc.Rec) xpath.NodeNavigator) (s string, it *xpath.NodeIterator) {
 	defer func() {
 		if x := recover(); x != nil {
 			pi, budget := classify(x)
@@ -311,7 +318,7 @@ func (c *Case) evalDigest(e *xpath.Expr, ctx *xdoc.Node) (s string, it *xpath.No
 			it = nil
 		}
 	}()
-	switch v := e.Evaluate(xdoc.NewNav(ctx, &xdoc.Rec{Limit: OpLimit})).(type) {
+	switch v := e.Evaluate(mkNav(ctx, &xdoc.Rec{Limit: OpLimit})).(type) {
 	case *xpath.NodeIterator:
 		return "", v
 	case float64:
